@@ -2,6 +2,8 @@ package props
 
 import (
 	"fmt"
+	"github.com/go-kid/ioc/component_definition"
+	"github.com/go-kid/ioc/container/support"
 	"math/rand"
 	"runtime"
 	"sort"
@@ -118,8 +120,56 @@ func (p c20) utilityRace(c *core.Ctx) {
 	c.Nontrivial(fmt.Sprintf("utilrace:%d:%d:%d:%d", nG, nOps, nKeys, c.Index))
 }
 
+// registryRace: the definition registry's get-or-register is what the parallel scan phase calls from all
+// its goroutines; scanners that contribute a shared definition ask for the same fresh name at once. All
+// callers of one name get one definition, and that is the one the registry keeps.
+func (p c20) registryRace(c *core.Ctx) {
+	reg := support.DefaultDefinitionRegistry()
+	nNames := 1 + c.Rng.Intn(3)
+	nG := 3 + c.Rng.Intn(6)
+	comps := make([]any, nNames)
+	for i := range comps {
+		comps[i] = world.Palette[c.Rng.Intn(8)].New()
+	}
+	got := make([][]*component_definition.Meta, nG)
+	var wg sync.WaitGroup
+	start := make(chan struct{})
+	for g := 0; g < nG; g++ {
+		got[g] = make([]*component_definition.Meta, nNames)
+		wg.Add(1)
+		go func(g int) {
+			defer wg.Done()
+			<-start
+			for i := 0; i < nNames; i++ {
+				k := (i + g) % nNames
+				got[g][k] = reg.GetMetaOrRegister(fmt.Sprintf("shared-%d", k), comps[k])
+				if g%2 == 0 {
+					runtime.Gosched()
+				}
+			}
+		}(g)
+	}
+	close(start)
+	wg.Wait()
+	c.Count("registry_get_or_register_histories", 1)
+	for k := 0; k < nNames; k++ {
+		kept := reg.GetMetaByName(fmt.Sprintf("shared-%d", k))
+		for g := 0; g < nG; g++ {
+			if got[g][k] == nil || got[g][k] != kept {
+				c.Fail("", fmt.Sprintf("definition registry: %d goroutines asked for the fresh name shared-%d at once; goroutine %d was handed definition %p, the registry keeps %p (two callers both won)", nG, k, g, got[g][k], kept), map[string]any{"goroutines": nG, "names": nNames})
+				return
+			}
+		}
+	}
+	c.Nontrivial(fmt.Sprintf("regrace:%d:%d:%d", nG, nNames, c.Index))
+}
+
 func (p c20) RunRace(c *core.Ctx) {
 	if c.Index%4 == 3 {
+		if c.Index%8 == 7 {
+			p.registryRace(c)
+			return
+		}
 		p.utilityRace(c)
 		return
 	}
